@@ -104,11 +104,67 @@ def exhaustive_sequences(maxlen):
     return cases
 
 
+def macro_mod_case(cid, rng):
+    """An entraited module stamped out by macro_rules!: whole items, fn bodies, visibilities and names arrive as
+    fragments (None-delimited groups) between ordinary visible fns."""
+    frag_items = ["struct S {}", "pub struct U;", "fn private_in_fragment() {}", "impl S0 { pub fn inside(&self) {} }", "pub const K: u8 = 1;",
+                  "pub fn visible_in_fragment<D>(deps: &D) {}"]
+    matcher, args, body, truth = [], [], [], []
+    n = rng.randint(2, 6)
+    k = 0
+    for i in range(n):
+        kind = rng.choice(["plain", "plain", "item", "block", "vis", "name", "ty"])
+        if kind == "plain":
+            body.append("pub fn p%d<D>(deps: &D) {}" % i)
+            truth.append("p%d" % i)
+        elif kind == "item":
+            it = rng.choice(frag_items)
+            matcher.append("$i%d:item" % k)
+            args.append(it.rstrip(";") if False else it)
+            body.append("$i%d" % k)
+            if it.startswith("pub fn visible_in_fragment"):
+                truth.append("visible_in_fragment")
+            k += 1
+        elif kind == "block":
+            matcher.append("$b%d:block" % k)
+            args.append(rng.choice(["{ }", "{ let _x = 1; }"]))
+            body.append("pub fn b%d<D>(deps: &D) $b%d" % (i, k))
+            truth.append("b%d" % i)
+            k += 1
+        elif kind == "vis":
+            v = rng.choice(["pub", "pub(crate)", ""])
+            matcher.append("$v%d:vis" % k)
+            args.append(v)
+            body.append("$v%d fn v%d<D>(deps: &D) {}" % (k, i))
+            if v:
+                truth.append("v%d" % i)
+            k += 1
+        elif kind == "name":
+            matcher.append("$n%d:ident" % k)
+            args.append("named%d" % i)
+            body.append("pub(crate) fn $n%d<D>(deps: &D) {}" % k)
+            truth.append("named%d" % i)
+            k += 1
+        else:
+            matcher.append("$t%d:ty" % k)
+            args.append(rng.choice(["u8", "Vec<(u8, u8)>", "[u8; 2]"]))
+            body.append("pub fn t%d<D>(deps: &D, x: $t%d) {}" % (i, k))
+            truth.append("t%d" % i)
+            k += 1
+    if any(a.startswith("impl S0") for a in args):
+        body.insert(0, "pub struct S0;")
+    src = "macro_rules! make_mod {\n    (%s) => {\n        #[::entrait::entrait(Tr)] /*@inv*/\n        mod the_mod {\n%s\n        }\n    };\n}\nmake_mod!(%s);\n" % (
+        "; ".join(matcher), "\n".join("            " + b for b in body), "; ".join(args))
+    # a `vis` fragment that is empty must be followed by a separator the matcher can see: `;` does that
+    return Case(cid, src, meta={"truth": truth, "n_items": n, "nontrivial": True, "family": "macro_rules"}, run=False, expect="expand")
+
+
 def method_names(rec):
     out, inp = rec["output"], rec["input"]
     bi = tok.find_brace(inp)
-    rest = out[bi]["s"][len(inp[bi]["s"]):]
-    for it in tok.split_items(rest):
+    # the generated trait is the last trait item of the emitted module (the module's own items come first; macro_rules
+    # fragments may be re-emitted without their invisible group, so positions are not compared here - C02 does that)
+    for it in reversed(tok.split_items(out[bi]["s"])):
         k = tok.item_kind(it)
         if k["kind"] == "trait":
             names = []
@@ -157,6 +213,7 @@ def run(tier, seed):
     n = 400 if tier == "quick" else 6000
     rng = core.rng_for(PROP, seed)
     cases = [gen_module(rng, "c08_%05d" % i) for i in range(n)]
+    cases += [macro_mod_case("c08m_%05d" % i, rng) for i in range(n // 5)]
     ex = exhaustive_sequences(2 if tier == "quick" else 3)
     ws = core.Workspace(PROP, "x", expand_only=True)
     ws.extend(cases + ex)
